@@ -317,3 +317,82 @@ def known_findings():
     if not os.path.exists(p):
         return []
     return json.load(open(p)).get("findings", [])
+
+
+# ---- replay cache: several properties share one specification (C01/C02, C04/C05/C06); the generation +
+# replay of a configuration is identical for them as long as /repo's working tree, the specification,
+# the harness and the runner are byte-identical.  Keyed by a content hash of all of these; entries
+# expire after 3 hours.  VERIF_NOCACHE=1 disables it.
+def tree_state(repo):
+    h = hashlib.sha256()
+    def run(*a):
+        return subprocess.run(list(a), cwd=repo, stdout=subprocess.PIPE, stderr=subprocess.DEVNULL).stdout
+    h.update(run("git", "rev-parse", "HEAD"))
+    h.update(run("git", "diff", "HEAD"))
+    for f in run("git", "ls-files", "--others", "--exclude-standard").decode().split("\n"):
+        if f and os.path.isfile(os.path.join(repo, f)):
+            h.update(f.encode())
+            h.update(open(os.path.join(repo, f), "rb").read())
+    return h.hexdigest()
+
+
+def dir_hash(d, exts):
+    h = hashlib.sha256()
+    for root, dirs, files in sorted(os.walk(d)):
+        dirs.sort()
+        for f in sorted(files):
+            if f.endswith(exts) and f != "go.sum":
+                h.update(f.encode())
+                h.update(open(os.path.join(root, f), "rb").read())
+    return h.hexdigest()
+
+
+def cache_key(work, *parts):
+    repo = os.environ.get("VERIF_REPO", "/repo")
+    h = hashlib.sha256()
+    for x in (tree_state(repo), dir_hash(SPEC, (".tla",)), dir_hash(HARNESS, (".go", ".mod")), dir_hash(os.path.join(VERIF, "bin"), (".py",)),
+              work.tier, str(work.seed), json.dumps(parts, sort_keys=True)):
+        h.update(x.encode())
+    return h.hexdigest()[:32]
+
+
+def cache_get(key):
+    if os.environ.get("VERIF_NOCACHE"):
+        return None
+    d = os.path.join(VERIF, ".work", "cache", key)
+    meta = os.path.join(d, "meta.json")
+    if not os.path.exists(meta):
+        return None
+    m = json.load(open(meta))
+    if time.time() - m["at"] > 3 * 3600:
+        shutil.rmtree(d, ignore_errors=True)
+        return None
+    return d, m
+
+
+def cache_put(key, meta, files):
+    if os.environ.get("VERIF_NOCACHE"):
+        return
+    croot = os.path.join(VERIF, ".work", "cache")
+    if os.path.isdir(croot):  # prune expired entries
+        for e in os.listdir(croot):
+            m = os.path.join(croot, e, "meta.json")
+            try:
+                if not os.path.exists(m) or time.time() - json.load(open(m))["at"] > 3 * 3600:
+                    if time.time() - os.path.getmtime(os.path.join(croot, e)) > 600:
+                        shutil.rmtree(os.path.join(croot, e), ignore_errors=True)
+            except Exception:
+                pass
+    d = os.path.join(croot, key)
+    tmp = d + ".tmp%d" % os.getpid()
+    shutil.rmtree(tmp, ignore_errors=True)
+    os.makedirs(tmp)
+    names = []
+    for f in files:
+        if os.path.exists(f):
+            shutil.copy(f, os.path.join(tmp, os.path.basename(f)))
+            names.append(os.path.basename(f))
+    meta = dict(meta, at=time.time(), files=names)
+    json.dump(meta, open(os.path.join(tmp, "meta.json"), "w"))
+    shutil.rmtree(d, ignore_errors=True)
+    os.rename(tmp, d)
